@@ -63,9 +63,15 @@ def blocked_in_read_stdin(pid):
 class Paced(object):
     """delta fed line by line; after each line: wait for quiescence, collect stdout."""
 
-    def __init__(self, args, trace=False):
+    def __init__(self, args, trace=False, pager=False):
         w = runner.workdir()
         env = runner.base_env()
+        self.pager = pager
+        self.pager_pid = None
+        if pager:
+            # a pager that copies what it receives straight to (delta's inherited) stdout: what it has received is observable
+            env['DELTA_PAGER'] = '/bin/cat'
+            args = [('always' if a == 'never' and i > 0 and args[i - 1] == '--paging' else a) for i, a in enumerate(args)]
         self.trace_path = None
         if trace:
             self.trace_path = os.path.join(w, 'tmp', 'c11trace.%d.%d' % (os.getpid(), int(time.time() * 1e6)))
@@ -97,15 +103,30 @@ class Paced(object):
         while time.time() < deadline:
             if self.proc.poll() is not None:
                 return False
-            if fionread(fd) == 0 and self.pid and blocked_in_read_stdin(self.pid):
+            if fionread(fd) == 0 and self.pid and blocked_in_read_stdin(self.pid) and self.pager_idle():
                 # the pipe only becomes empty in the reader's context; confirm the state once more after draining
                 self.drain()
-                if fionread(fd) == 0 and blocked_in_read_stdin(self.pid):
+                if self.pager:
+                    time.sleep(0.001)
+                if fionread(fd) == 0 and blocked_in_read_stdin(self.pid) and self.pager_idle():
                     self.drain()
                     return True
             self.drain()
             time.sleep(0.0003)
         return False
+
+    def pager_idle(self):
+        """In pager mode: the pager process exists and sleeps in read(0), i.e. it has passed on all it was given."""
+        if not self.pager:
+            return True
+        if self.pager_pid is None:
+            try:
+                with open('/proc/%d/task/%d/children' % (self.pid, self.pid)) as f:
+                    kids = f.read().split()
+                self.pager_pid = int(kids[0]) if kids else None
+            except (OSError, ValueError):
+                self.pager_pid = None
+        return self.pager_pid is not None and blocked_in_read_stdin(self.pager_pid)
 
     def feed(self, line):
         os.write(self.proc.stdin.fileno(), line + b'\n')
@@ -190,12 +211,13 @@ def run_item(item):
     c = crashmod.classify(whole)
     if c is not None or whole.rc != 0:
         return [engine.crash_outcome(whole, ID) or inconclusive('reference run failed')]
-    p = Paced(args, trace=True)
+    pager = rng.random() < 0.25
+    p = Paced(args, trace=True, pager=pager)
     if not p.pid:
         p.finish()
         return [inconclusive('could not find the delta process')]
     outs = []
-    sets = {'views': [view], 'kinds': [kind], 'buffer_sizes': [str(buf)]}
+    sets = {'views': [view], 'kinds': [kind], 'buffer_sizes': [str(buf)], 'output_to': ['pager' if pager else 'stdout']}
     snapshots = []
     ok_q = p.quiesce()
     for k, l in enumerate(blines):
@@ -210,6 +232,8 @@ def run_item(item):
                          len(whole.out), len(p.written), run=whole, sets=sets)]
     # hook-1 secondary monitor: buffer occupancy after every handled line
     tl = [t for t in trace if t.startswith('line ')]
+    if len(tl) != len(blines):
+        return [inconclusive('hook trace has %d line records for %d input lines' % (len(tl), len(blines)), sets=sets)]
     for i, t in enumerate(tl):
         f = dict(x.split('=') for x in t.split()[2:])
         if int(f['outbuf']) != 0:
